@@ -251,6 +251,10 @@ func c02Scenarios(tier string) []*world.Scenario {
 		out = append(out, c02Batch(n, T3m(), "", false))
 		if thorough || n == "get" || n == "set" || n == "eval" || n == "hmset" || n == "zrange" {
 			out = append(out, c02Batch(n, T3(), "secret", thorough))
+			co := c02Batch(n, T3(), "secret", false)
+			co.CoalesceAll = true
+			co.Name += "/coalesced"
+			out = append(out, co)
 		}
 	}
 	// segmentation of requests and replies
@@ -328,6 +332,9 @@ func c02Scenarios(tier string) []*world.Scenario {
 			return vs
 		}
 		out = append(out, sc)
+	}
+	for _, sz := range [][3]int{{1, 30, 30}, {70, 3, 20}, {3, 3, 90}} {
+		out = append(out, SlowMultiFlush("C02", sz, slowB))
 	}
 	if thorough {
 		// "multi-megabyte" argument, production buffer sizes
@@ -683,6 +690,25 @@ func c04Scenarios(tier string) []*world.Scenario {
 	for mask := 0; mask < 16; mask++ {
 		out = append(out, c04HandshakeCuts(mask, "secret", false))
 		out = append(out, c04HandshakeCuts(mask, "", true))
+	}
+	// the handshake replies and the replies to the first requests arrive in ONE read (a node answers AUTH, READONLY and
+	// the pipelined requests in one segment), whole and with the last +OK split off
+	for _, pw := range []string{"secret", ""} {
+		for _, rep := range []bool{true, false} {
+			if pw == "" && !rep {
+				continue
+			}
+			for _, mask := range []int{0, 1 << 2, 1 << 6, 1<<2 | 1<<6} {
+				sc := c04HandshakeCuts(mask, pw, rep)
+				sc.CoalesceAll = true
+				sc.Name += "/coalesced"
+				out = append(out, sc)
+				sc2 := c04HandshakeCuts(mask, pw, rep)
+				sc2.CoalesceChoice, sc2.Bound, sc2.InputEnum = true, 2, false
+				sc2.Name += "/coalesce-choice/d2"
+				out = append(out, sc2)
+			}
+		}
 	}
 	return out
 }
